@@ -43,7 +43,7 @@ def entries():
 
 _C11 = ["position at end of text", "position at the end of a line", "position at the start of a later line",
         "column after a multi-byte character"]
-OPTIONAL_COVERS = {"c11_len0": _C11[1:], "c11_len1": _C11[2:], "c11_len2": _C11[3:]}
+OPTIONAL_COVERS = {"m_any_char_3": ["4-byte character"], "c11_len0": _C11[1:], "c11_len1": _C11[2:], "c11_len2": _C11[3:]}
 
 _crate = None
 
